@@ -19,5 +19,13 @@ def match(findings, pid, v):
             continue
         if k["clause"] != v["clause"] or k["site"] != v["site"]:
             continue
-        return k
+        ok = True
+        for path, want in (k.get("when") or {}).items():
+            cur = v.get("case", {})
+            for part in path.split("."):
+                cur = cur.get(part) if isinstance(cur, dict) else None
+            if cur != want:
+                ok = False
+        if ok:
+            return k
     return None
